@@ -412,6 +412,43 @@ def r9_file_line_unmodified(chk, prog, rule='R9'):
               'calls on the line: %s' % sorted(set(bad)))
 
 
+def r10_nesting_is_left_again(chk, prog):
+    """Handler::readArgumentFile() bounds the nesting of argument files with a counter (C04-R14).  The counter is the
+    DEPTH: it is restored to its entry value when the file is done - the restoring guard (common::ResetAtExit) is set
+    up before the increment, so that it captures the entry value.  Otherwise the counter counts every file the
+    handler ever read, and a valid command line spread over many flat files is refused."""
+    f = prog.one('celma::prog_args::Handler', 'readArgumentFile')
+    cfg = f.cfg
+    incs = [x for x in f.walk() if x.get('k') == 'UnaryOperator' and x.get('op') == '++' and
+            field_name(children(x)[0])]
+    if not incs:
+        chk.ok('R10', f.name, 'readArgumentFile() keeps no nesting counter')
+        return
+    for inc in incs:
+        fld = field_name(children(inc)[0])
+        guards = []
+        for n_ in f.walk():
+            if n_.get('k') != 'DeclStmt':
+                continue
+            for d in n_.get('decls', []):
+                if 'ResetAtExit<' in d.get('t', '') and isinstance(d.get('init'), dict):
+                    args = children(d['init'])
+                    if len(args) >= 2 and field_name(args[0]) == fld and mentions_field(args[1], fld):
+                        guards.append(n_)
+        decs = [x for x in f.walk() if x.get('k') == 'UnaryOperator' and x.get('op') == '--' and
+                field_name(children(x)[0]) == fld]
+        if not guards and not decs:
+            chk.check(False, 'R10', f.name, 'the nesting level %s is left again when the file is done' % fld, f.loc(inc),
+                      'it is incremented and never restored')
+            continue
+        if not guards:
+            raise AnalysisBroken('readArgumentFile restores %s without common::ResetAtExit: idiom not known' % fld)
+        ok = any(cfg.node_dominates(g, inc) for g in guards)
+        chk.check(ok, 'R10', f.name, 'the guard that restores the nesting level %s captures its value before the '
+                  'increment' % fld, f.loc(inc), 'the guard is set up behind the increment: it restores the incremented '
+                  'value, the level grows with every file read')
+
+
 def run(chk):
     prog, units = rules.prog_args_program()
     chk.units = units
@@ -465,6 +502,8 @@ def run(chk):
     r8_env_var_name(chk, prog)
     chk.rule('R9', 'the lines of an argument file reach the splitter unmodified', 2)
     r9_file_line_unmodified(chk, prog)
+    chk.rule('R10', 'the argument file nesting level is a depth, not a total', 1)
+    r10_nesting_is_left_again(chk, prog)
     chk.rule('R6', 'the read mode reaches the sub-group handler that evaluates words of a file / environment source', 1)
     pa = prog.one('celma::prog_args::Handler', 'processArg')
     pcfg = pa.cfg
